@@ -231,13 +231,13 @@ def enumerate_cases(ctx):
                 (1, 6, 6, [[2]], BW5)]
     else:
         plan = [(2, 5, 7, one(2), BW8),
-                (2, 6, 6, one(2), BW3),
-                (2, 4, 6, id_lists(2, 1), BW3),
-                (3, 4, 6, id_lists(3, 0), BW2),
+                (2, 6, 6, one(2), BW2),
+                (2, 4, 6, id_lists(2, 1), BW2),
+                (3, 4, 5, id_lists(3, 0), BW2),
                 (3, 3, 4, id_lists(3, 1), BW2),
-                (4, 4, 5, [None, one(4)[0]], BW2),
+                (4, 4, 5, one(4), BW2),
                 (4, 3, 4, id_lists(4, 0), BW3),
-                (1, 7, 8, [[2], None], BW8)]
+                (1, 7, 8, [[2]], BW8)]
     ctx.scope('correlograms (one-sided + symmetrised) vs brute-force pair count, sample_rate 1; for each row (k clusters, '
               'n_max, grid, #cluster_ids lists, (bin, window) ticks) in %s: ALL non-decreasing trains of 0..n_max spikes on '
               'grid 0..grid-1 (ties incl.) x ALL labelings over ids %s[:k] x the cluster_ids lists (None, pool order, '
@@ -260,7 +260,7 @@ def enumerate_cases(ctx):
     # ---- family B: other sample rates (time*rate exact), bins of several samples, offsets, dtypes
     RATES = [0.5, 2.0, 10.0, 3.0, 1000.0, 30000.0] if quick else \
             [0.25, 0.5, 2.0, 4.0, 10.0, 3.0, 7.0, 100.0, 1000.0, 20000.0, 25000.0, 30000.0]
-    nB, gB = (3, 5) if quick else (4, 6)
+    nB, gB = (3, 5) if quick else (3, 6)
     BWB = [(2, 2), (2, 5), (3, 9)] if quick else [(2, 2), (2, 5), (1, 3), (3, 9), (5, 13)]
     ctx.scope('correlograms at sample rates %s (only trains with tick/sr*sr == tick in floats): ALL trains of 0..%d spikes '
               'on a grid of %d ticks x ALL labelings over 2 clusters x cluster_ids [9,2,1,0] (list) or [0,2] (array, with '
